@@ -256,3 +256,19 @@ package hsrv
 //@     invariant port_known: nPort == 1
 //@   loop 2.1
 //@     invariant port_known: nPort == 1
+
+// pinkSender.Write: the http server's own error log reaches the operator as
+// one notice carrying exactly the bytes written, as data (C10).
+//@ func pinkSender.Write(ps, p) (n, err)
+//@   props C10
+//@   ghost sent int = 0
+//@   on send ps.och(v): assert(sent == 0 && v.Color == ErrorColor && v.Line == string(p) && !v.Plain, "server_error_text_is_the_notice_verbatim"); sent++
+//@   ensures whole_write_accepted: n == len(p) && err == nil && sent == 1
+
+// sortAddresses only reorders and drops addresses: every address it returns
+// is one of those it was given, unchanged (so ports added by listenAddresses
+// survive).
+//@ func sortAddresses(as) (res)
+//@   props C05
+//@   ensures no_more_than_given: len(res) <= len(as)
+//@   ensures only_given_addresses_unchanged: forall(j, 0 <= j && j < len(res), exists(i, 0 <= i && i < len(as), res[j] == old(as[i])))
